@@ -64,6 +64,12 @@ def gen_doc(rng, run, k):
         kinds = ['bad_date', 'bad_time'] if r < 0.2 else (['bad_code'] if r < 0.4 else None)
         case = _c05.gen_case(rng, run * 3 + k * 5, 'quick', include_fa=True, kinds=kinds)
         if 'doc' in case:
+            if case['entry']['icvn'] == '00501' and rng.random() < 0.2:
+                # a 5010 set header without ST03 (what an acknowledgement copies from one set must not reach the next document's)
+                sts = [s_ for s_ in case['doc'] if s_['id'] == 'ST' and len(s_['vals']) >= 3]
+                if sts:
+                    s_ = rng.choice(sts)
+                    s_['vals'] = s_['vals'][:2]
             return _c05.case_text(case), entry['file'], 'faulty' if case['faults'] else 'clean'
     c7 = _c07.generate(rng, 'quick', run * 3 + k * 5)
     t = c7['text'] if c7['eof'] is None else c7['text'][:c7['eof']]
